@@ -14,6 +14,10 @@ CLAIMED = {
          "Decides clauses R15.1-R15.5: every proposal status change executes only where p.Status cannot be APPROVED/REJECTED (forward dataflow refined by the code's own comparisons, lifted through helper pre/post-conditions to all call sites); vote admission (role answer before setVote; tally and ballot writes behind electorate membership and ballot-absent edges; persistence only on approve/reject); special proposals reach the decision only after the super-admin vote; handleResult is preceded by a concluding call and follows every direct concluding change; the decision function is fed the proposal's own tally fields. Structural necessary conditions; not the tally arithmetic.",
          "go/ssa model; govaluate semantics and role data trusted; helper postconditions computed from the helpers' own bodies",
          "DESIGN.md section 5 C15"),
+ "C01": ("per-loop order-effect classification of every map range / sync.Map.Range in the block-execution packages (SSA: accumulations, keyed vs. unkeyed writes, early exits carrying entry data, call write-summaries), sort-before-use path rule, forward slice of clock values, goroutine write-shape rule, cache guard-edge rules",
+         "Decides clauses R01.1-R01.4: no map-iteration order reaches a later use (every loop body is order-insensitive, or what it accumulates is sorted before any other use, or it is a frozen argued exception); wall-clock / random values flow only into durations, logging and metrics (one frozen exception: genesis Timestamp, not hashed); goroutines of block execution write only map[ownIndex] under the mutex; the service cache is filled only for successful transactions and reset after a ledger rollback. That execution is otherwise a function of (genesis, blocks) - dependencies, restart placement - is not decided.",
+         "go/ssa model; sort, encoding/json (sorted map keys) semantics trusted",
+         "DESIGN.md section 5 C01"),
  "C02": ("SSA must-pass-through of the index gate, finite-ordering evaluation of checkIndex, who-may-write analysis of the counter maps, argument-coherence rule",
          "Decides clauses R02.1-R02.4: every accepting path of checkIBTP crosses checkIndex(counter[dst]+1, ibtp.Index) (or the explicit unordered-destination edge); checkIndex returns nil exactly for cur==exp (all three orderings evaluated); the four counter maps are written only in functions reachable solely through HandleIBTP, behind the no-error edges of checkIBTP and begin/report; the request counter advances by exactly one; one interchain event per accepted IBTP; (from,to,index) triples are coherent. Structural necessary conditions; counter values over histories are not decided.",
          "go/ssa model; TransactionManager/Service contracts behave as their own checks say; unordered (batch) services are outside the property's 'ordered pair'",
